@@ -923,7 +923,15 @@ func c26Judge(c c26Case, prep map[int]c26Prepared, obs c26Obs, res *vkit.Result)
 				if op.Form >= 2 {
 					want = "/px" + want
 				}
-				if r.Srv != op.Srv || r.Path != want || r.Key != key {
+				// on the wire the dots have to be percent-encoded (a literal dot
+				// segment would be resolved away); judge the decoded segments
+				got := r.Path
+				if i := strings.LastIndex(got, "/"); i >= 0 {
+					if seg, err := url.PathUnescape(got[i+1:]); err == nil && strings.Contains(got[i+1:], "%") {
+						got = got[:i+1] + seg
+					}
+				}
+				if r.Srv != op.Srv || got != want || r.Key != key {
 					res.Violate("C26/misaddressed/dot-segment-dataset", "event %d for dataset %q (host %q) arrived at srv%d on path %q", i, ds, c26HostURL(op.Srv, op.Form), r.Srv, r.Path)
 				}
 				continue
